@@ -54,6 +54,14 @@ FriLayersFrom(dom, maxRem, fold) == IF dom > maxRem THEN 1 + FriLayersFrom(dom \
 FriLayers(c) == FriLayersFrom(Lde(c), (c.rem + 1) * c.blowup, c.fold)
 RemainderLen(c) == L(c) \div (c.fold ^ FriLayers(c))
 
+\* number of field elements drawn for the constraint composition / DEEP composition coefficients:
+\* one per constraint (resp. per column) with linear batching, a single one otherwise
+AuxWidth(c) == IF HasAux(c) THEN c.aux[1].width ELSE 0
+NumConstraintCoeffDraws(c) ==
+  IF c.cbatch = 0 THEN c.width + AuxWidth(c) + Len(c.asserts) + AuxWidth(c) ELSE 1
+NumDeepCoeffDraws(c) ==
+  IF c.dbatch = 0 THEN c.width + AuxWidth(c) + CompositionColumns(c) ELSE 1
+
 (***************************************************************************)
 (* Supported(cfg): every constructor accepts it and the FRI schedule is    *)
 (* well formed (conservative: only such configurations are claimed)        *)
@@ -201,14 +209,19 @@ CaseOf(c) ==
              rem |-> c.rem, cbatch |-> c.cbatch, dbatch |-> c.dbatch, parts |-> c.parts, hash_rate |-> c.hash_rate],
    field |-> c.field, hash |-> c.hash, garbage |-> c.garbage,
    expect |-> [verdict |-> "accept", fri_layers |-> FriLayers(c), remainder_len |-> RemainderLen(c),
-               lde_domain |-> Lde(c), comp_columns |-> CompositionColumns(c)]]
+               lde_domain |-> Lde(c), comp_columns |-> CompositionColumns(c),
+               \* public-coin schedule (see Transcript.tla)
+               aux_rands |-> IF HasAux(c) THEN c.aux[1].rands ELSE 0,
+               ncc |-> NumConstraintCoeffDraws(c), ndeep |-> NumDeepCoeffDraws(c)]]
 
 \* printed once per completed supported configuration (invariant that is always TRUE)
 EmitDone == (phase = "done" /\ Supported(cfg)) => PrintT(<<"REPLAY", ToJson(CaseOf(cfg))>>)
 
 \* fixed boundary configurations: every one must be Supported (checked), and is emitted
 BoundaryOk == \A i \in 1..Len(Boundary) : Supported(Boundary[i])
-EmitBoundary == \A i \in 1..Len(Boundary) : PrintT(<<"REPLAY", ToJson(CaseOf(Boundary[i]))>>)
+\* (state-level on purpose: TLC pre-evaluates constant-level definitions of every module it loads, which
+\* would print the list in every run)
+EmitBoundary == (phase = "field") => \A i \in 1..Len(Boundary) : PrintT(<<"BOUNDARY", ToJson(CaseOf(Boundary[i]))>>)
 
 \* design-level facts about the schedule, checked on every completed supported configuration
 ScheduleSane ==
